@@ -138,7 +138,8 @@ class World(object):
 
 
 class Execution(object):
-    def __init__(self, world, progs, gen, scaled, table_full):
+    def __init__(self, world, progs, gen, scaled, table_full, line_mode=False):
+        self.line_mode = line_mode
         self.w = world
         self.s = sched.Sched()
         self.progs = progs
@@ -153,10 +154,32 @@ class Execution(object):
             self._spawn(ti, prog)
 
     def _spawn(self, ti, prog):
+        def tracer(frame, event, arg):
+            # line granularity: every line the point class executes is a yield point
+            # ... restricted to the functions that touch the object's mutable fields at all (the field arithmetic
+            # helpers _add/_double/... only use their arguments and are thread-local computation)
+            co = frame.f_code
+            if co.co_filename.endswith("ellipticcurve.py") and any(n in self.w.fields for n in co.co_names) \
+                    and frame.f_locals.get("self") is self.P:
+                return local
+            return None
+
+        def local(frame, event, arg):
+            if event == "line":
+                self.s.announce(("Line", frame.f_lineno))
+            return local
+
         def body():
+            import sys
             out = []
-            for op in prog:
-                out.append(self.w.run_op(op, self.P))
+            if self.line_mode:
+                sys.settrace(tracer)
+            try:
+                for op in prog:
+                    out.append(self.w.run_op(op, self.P))
+            finally:
+                if self.line_mode:
+                    sys.settrace(None)
             return out
         self.s.spawn(ti, body)
 
@@ -186,6 +209,8 @@ class Execution(object):
         p = self.s.ts[t].pending
         if p is None:
             return None
+        if p[0] == "Line":
+            return "L"
         return {"Rd": "R", "Wr": "W", "Snap": "S"}[p[0]] + (p[1][0] if p[0] != "Snap" else "")
 
     def enabled(self):
@@ -310,3 +335,48 @@ def explore(args):
         finally:
             ex.close()
     return execs, steps, len(seen), problems, not stack
+
+
+def preemption_sweep(args):
+    """Line granularity ("a context switch possible at every line the point class executes on a shared object"):
+    for two threads, run A for k steps (lines and field accesses), then B to completion, then A to completion, for
+    every k; and with the roles swapped.  One preemption at every possible position."""
+    progs, gen, scaled, table_full = args
+    w = world()
+    expected = sequential(w, progs, gen, scaled, table_full)
+    execs = steps = 0
+    problems = []
+    for first, second in ((1, 2), (2, 1)):
+        k = 0
+        while True:
+            ex = Execution(w, progs, gen, scaled, table_full, line_mode=True)
+            execs += 1
+            schedule = []
+            try:
+                done_first = False
+                for _ in range(k):
+                    if first not in ex.enabled():
+                        done_first = True
+                        break
+                    ex.s.step(first)
+                    schedule.append(first)
+                    steps += 1
+                while second in ex.enabled():
+                    ex.s.step(second)
+                    schedule.append(second)
+                    steps += 1
+                while first in ex.enabled():
+                    ex.s.step(first)
+                    schedule.append(first)
+                    steps += 1
+                for pr in ex.finish_check(expected):
+                    problems.append({"schedule": "thread %d for %d steps, then thread %d to completion, then thread %d"
+                                     % (first, k, second, first), "what": pr})
+            except sched.SchedulerStuck as e:
+                problems.append({"schedule": schedule, "what": "execution stuck: %s" % e})
+            finally:
+                ex.close()
+            if done_first or problems or k > 4000:
+                break
+            k += 1
+    return execs, steps, problems
